@@ -165,6 +165,9 @@ func (s *Spec) EmitWire(r *rand.Rand, extraArg bool) map[string]string {
 			if s.WireAllInSets {
 				k = 1
 			}
+			if s.WireNoSets {
+				k = 9
+			}
 			switch {
 			case k < 3:
 				setSeq++
